@@ -82,7 +82,9 @@ class HamiltonianChain(MarkovChain):
         self.grad = self.finite_diff if grad is None else grad
 
         self.temperature = temperature
-        self.inv_temp = float(1.0 / temperature)  # (a plain float, as load() restores it)
+        # (a plain float, as load() restores it - converted before the division, which a
+        # single- or half-precision numpy scalar would otherwise carry out in its own type)
+        self.inv_temp = 1.0 / float(temperature)
 
         if start is not None:
             start = start if isinstance(start, ndarray) else array(start)
